@@ -241,6 +241,15 @@ let answer (s : state) (toks : Stdlib.String.t list) : Stdlib.String.t =
            | "hwires" -> shrefs (get_hwires_roots s (sel_of_tok x) r pat u roots)
            | "hcables" -> shrefs (get_hcables_roots s (sel_of_tok x) r pat u roots)
            | _ -> failwith ("bad roots query " ^ fn))))
+  | [ "ordered"; fn; r; pats; h ] ->
+    (* one instance reference through the name map: the answer IN YIELD ORDER (Hier/TraceRoots.v, get_ordered) *)
+    let k = (match fn with "hwires" -> OWires | "hcables" -> OCables | "hpins" -> OPins | "hports" -> OPorts
+                         | _ -> failwith ("bad ordered query " ^ fn)) in
+    let pats = List.map str_of_tok (String.split_on_char ';' pats) in
+    (match get_ordered s k (bool_of_tok r) (absolute_b true false) (matches_b true false) pats (href_of_tok h) with
+     | None -> "FUEL"
+     | Some None -> "RAISES"
+     | Some (Some l) -> shrefs (Some l))
   | [ "inner"; h ] -> shrefs (Some (match inner_hwire s (href_of_tok h) with Some x -> [x] | None -> []))
   | [ "outer"; h ] -> shrefs (Some (match outer_hwire s (href_of_tok h) with Some x -> [x] | None -> []))
   | _ -> failwith ("bad query: " ^ String.concat " " toks)
@@ -276,6 +285,10 @@ let parse_hq (toks : Stdlib.String.t list) : hq =
   | [ "hpins"; r; h ] -> HHpins (bool_of_tok r, href_of_tok h)
   | [ "inner"; h ] -> HInner (href_of_tok h)
   | [ "outer"; h ] -> HOuter (href_of_tok h)
+  | [ "ordered"; fn; r; pats; h ] ->
+    let k = (match fn with "hwires" -> OWires | "hcables" -> OCables | "hpins" -> OPins | "hports" -> OPorts
+                         | _ -> failwith ("bad ordered query " ^ fn)) in
+    HOrdered (k, bool_of_tok r, List.map str_of_tok (String.split_on_char ';' pats), href_of_tok h)
   | "roots" :: fn :: n :: x :: r :: pats :: roots ->
     let k = (match fn with "hwires" -> HKWire | "hcables" -> HKCable | "hpins" -> HKPin | "hports" -> HKPort
                          | _ -> failwith ("bad roots query " ^ fn)) in
